@@ -2,7 +2,7 @@
 import numpy as np
 
 from mc import scenario as S
-from mc.explore import Chooser
+from mc.explore import Chooser, chash
 from ref.grid import Grid
 from ref import lp as R2
 from .common import viol, merge_cases, family, ImplRun, close
@@ -44,7 +44,16 @@ def build_cases(tier):
     fam2 = family("unequal", lambda ch: S.gen_portfolio(ch, FEATS_UNEQUAL), K)
     for c in fam2[0]:
         c["kind"] = "unequal"
-    cases, stats = merge_cases(fam1, fam2)
+    # durations of k hours (k = 1..11) for every duration parameter of a plant, on an hourly grid, in every unit
+    dur = []
+    for param in ("min_runtime", "min_downtime", "time_already_running", "time_already_off"):
+        for k in range(1, 12):
+            c = dict(kind="durations", param=param, hours=k)
+            c["key"] = chash(c)
+            c["family"] = "durations"
+            dur.append(c)
+    fam3 = (dur, dict(family="durations", states=len(dur), transitions=len(dur), executions=len(dur)))
+    cases, stats = merge_cases(fam1, fam2, fam3)
     stats["bound"] = dict(K=K, unit_pairs=6)
     return cases, stats
 
@@ -52,7 +61,45 @@ def build_cases(tier):
 def run_case(case):
     if case["kind"] == "units":
         return run_units(case)
+    if case["kind"] == "durations":
+        return run_durations(case)
     return run_unequal(case)
+
+
+def run_durations(case):
+    """a plant whose duration parameter is k hours, on an hourly grid with main time unit h, d, min"""
+    res = dict(status="ok", violations=[], counters={})
+    V = res["violations"]
+    k, param = case["hours"], case["param"]
+    vals = {}
+    for unit, gname in (("h", "12xh"), ("d", "12xh_d"), ("min", "12xh_min")):
+        gj = dict(S.GRIDS[gname])
+        g = Grid.from_json(gj)
+        T = g.T
+        p = [1.0] * T
+        p[3] = 9.0
+        p[8] = 9.0
+        a = dict(type="Plant", name="pl", nodes=["n1"], price="fuelc", min_cap=S.r(2.0, g), max_cap=S.r(4.0, g))
+        if param == "min_runtime":
+            a.update(min_runtime=S.d_(k, g), time_already_off=S.d_(20, g))
+        elif param == "min_downtime":
+            a.update(min_downtime=S.d_(k, g), time_already_running=S.d_(20, g), min_runtime=S.d_(2, g))
+        elif param == "time_already_running":
+            a.update(time_already_running=S.d_(k, g), min_runtime=S.d_(6, g))
+        else:
+            a.update(time_already_off=S.d_(k, g), min_downtime=S.d_(6, g))
+            p[0] = 9.0
+        scn = dict(grid=gj, prices=dict(p=p, fuelc=[4.0] * T), mode="mono",
+                   assets=[dict(type="SimpleContract", name="mkt", nodes=["n1"], price="p", min_cap=S.r(-10.0, g), max_cap=S.r(10.0, g)), a])
+        r = ImplRun(scn, solver="SCIPY", want_output=False)
+        vals[unit] = (r.status, None if r.value is None else round(r.value, 6))
+    res["fingerprint"] = repr(sorted(vals.items()))
+    res["outcome"] = "dur:%s" % (vals["h"],)
+    tags = ["durations", "param:" + param, "hours:%d" % k]
+    if len(set(vals.values())) > 1:
+        V.append(viol("c12.duration_units", "plant with %s = %d hours on an hourly grid: (status, value) per main time unit %s" % (param, k, vals), tags, ["durations", "param:" + param]))
+    res["nontrivial"] = vals["h"][0] == "optimal"
+    return res
 
 
 def run_units(case):
